@@ -21,7 +21,7 @@ TEXT = {
  "C12": "only the invalid-date part of the property is decided: for every NaN / infinite time value or field, constructor, Date.UTC, setUTC* and 19 accessors yield NaN (bounded symbolic execution through the public API); the calendar algebra for valid time values could not be decided by any available solver and is explicitly outside the claim",
  "C13": "bounded symbolic execution of Math built-ins over all doubles against IEEE/ES5 references, and of escape/URI coding on short symbolic strings",
  "C15": "bounded symbolic execution of toValue/export/To* conversions for every Go numeric kind at full width",
- "C16": "bounded symbolic execution of the numeric conversion Value.toReflectValue (used for writes to bridged slices, arrays and struct fields) for any double x every numeric target kind through a reflect shim: an error, or the delivered Go value equals the JavaScript number; reflective calls, structs, maps are outside the claim",
+ "C16": "bounded symbolic execution of the numeric conversion Value.toReflectValue (used for writes to bridged slices, arrays and struct fields) for any double x every numeric target kind through a reflect shim: an error, or the delivered Go value equals the JavaScript number; and of runtime.convertCallParameter for numeric parameters of bridged Go functions, and element writes to bridged slices through the public API; the reflective call wrapper itself (arity, variadics), structs and maps are outside the claim",
  "C17": "symbolic execution of the real cloner on a hand-built heap containing every reference kind, scalars symbolic; isomorphism, disjointness and independence under a symbolic mutation",
  "C18": "the interrupt poll of the real evaluator is made a symbolic choice: for fixed program families every poll index up to the bound is explored and the unwinding/rest-state assertions are decided on each path",
  "C19": "bounded symbolic execution of the line/column arithmetic of parser and file package on symbolic source bytes against an ES5 7.3 line-terminator oracle; trace capture with symbolic limits",
